@@ -201,7 +201,7 @@ func checkC17(p *Prog, r *Report) {
 		boundedField[m.Obj().Name()] = bf
 	}
 
-	nExplicit, nMust, nNil, nBounds, nLib, nNarrow := 0, 0, 0, 0, 0, 0
+	nExplicit, nMust, nNil, nBounds, nLib, nNarrow, nDiv, nKeyConv := 0, 0, 0, 0, 0, 0, 0, 0
 	boundSites := map[string]bool{}
 	var pres []nilPre
 	// vbNonNil: in a message handler (which baseapp runs only after the message's ValidateBasic), msg.<field> is non-nil when
@@ -301,6 +301,51 @@ func checkC17(p *Prog, r *Report) {
 		for _, b := range fn.Blocks {
 			for _, in := range b.Instrs {
 				switch x := in.(type) {
+				// ---------------- P-lib: machine-integer division by a variable ----------------
+				case *ssa.BinOp:
+					if (x.Op == token.QUO || x.Op == token.REM) && isIntegerType(x.Y.Type()) {
+						if c, isC := x.Y.(*ssa.Const); isC && c.Value != nil && c.Int64() != 0 {
+							break
+						}
+						nDiv++
+						dt := o.Of(x.Y)
+						wit, ok := fa.DominatingFact(in, false, func(t *Term) bool {
+							return t.Op == "eq" && (t.Args[0].Op == "const" && t.Args[0].Name == "0" && t.Args[1].Eq(dt) || t.Args[1].Op == "const" && t.Args[1].Name == "0" && t.Args[0].Eq(dt))
+						})
+						if !ok {
+							wit, ok = fa.DominatingFact(in, true, func(t *Term) bool {
+								return t.Op == "lt" && t.Args[0].Op == "const" && !strings.HasPrefix(t.Args[0].Name, "-") && t.Args[1].Eq(dt)
+							})
+						}
+						r.Check(ok, kp("PANIC", "P-lib:"+fname+"#integer-division@"+blockTag(fn, b)), "an integer division or remainder by a value that is not a non-zero constant is dominated by a test that the divisor is non-zero", p.Pos(x.Pos()),
+							"divisor "+dt.String()+" guarded by "+wit, "division by "+dt.String()+" with no dominating non-zero test: a zero divisor is a run-time panic")
+					}
+				// ---------------- P-lib: []byte reinterpreted as a fixed-size key ----------------
+				case *ssa.ChangeType, *ssa.Convert:
+					var from ssa.Value
+					if ct, ok := x.(*ssa.ChangeType); ok {
+						from = ct.X
+					} else {
+						from = x.(*ssa.Convert).X
+					}
+					if kt := fixedSizeKeyType(x.(ssa.Value).Type()); kt != "" && isByteSlice(from.Type()) {
+						nKeyConv++
+						ft := o.Of(from)
+						if fixedLenProducer(from) {
+							r.OK(kp("PANIC", "P-lib:"+fname+"→"+kt+"(bytes)@"+blockTag(fn, b)), "bytes are reinterpreted as a fixed-size key type only after their length was pinned: the key's Verify/Address methods panic on any other length", p.Pos(x.Pos()),
+								"the operand is a buffer made with a constant length")
+							break
+						}
+						wit, ok := fa.DominatingFact(in, true, func(t *Term) bool {
+							if t.Op != "eq" {
+								return false
+							}
+							isLen := func(a *Term) bool { return a.IsCall("builtin:len") && len(a.Args) == 1 && a.Args[0].Eq(ft) }
+							return t.Args[0].Op == "const" && isLen(t.Args[1]) || t.Args[1].Op == "const" && isLen(t.Args[0])
+						})
+						r.Check(ok, kp("PANIC", "P-lib:"+fname+"→"+kt+"(bytes)@"+blockTag(fn, b)), "bytes are reinterpreted as a fixed-size key type only after their length was pinned: the key's Verify/Address methods panic on any other length", p.Pos(x.Pos()),
+							"dominated by "+wit, fmt.Sprintf("%s converts %v to %s with no dominating len(...) == constant: verification with a key of the wrong length panics (ed25519: bad public key length)", fname, ft, kt))
+					}
 				// ---------------- P-explicit: panic(...) ----------------
 				case *ssa.Panic:
 					nExplicit++
@@ -405,6 +450,12 @@ func checkC17(p *Prog, r *Report) {
 						}
 						r.Check(okc, kp("PANIC", "P-lib:"+fname+"→pbkdf2.Key#keyLen-fixed"), "the derived key is later sliced at fixed offsets: the requested key length must be pinned (constant or == constant) before the call; a file-supplied dklen <= 0 or absent panics", site, wit,
 							"keyLen = "+kl.String()+" is file-supplied and not pinned by a dominating equality: derivedKey[16:32] / pbkdf2 itself panic for dklen <= 0 (and the documented contract len = keyLen is violated for < 32)")
+					case isBigDivisionCall(name):
+						// math.Int / LegacyDec division: panics on a zero divisor
+						nDiv++
+						ok, wit, dv := bigDivisionGuard(o, fa, x.(ssa.Instruction), cc)
+						r.Check(ok, kp("PANIC", "P-lib:"+fname+"→"+name+"@"+blockTag(fn, b)), "a big-integer / decimal division has a divisor that is a non-zero constant or is dominated by !IsZero() / IsPositive() on the same value", site,
+							"divisor guarded: "+wit, fmt.Sprintf("%s divides by %v with no dominating non-zero test: a zero divisor (e.g. a supply that the same block burned completely) panics", name, dv))
 					case isNarrowingIntCall(name) != "":
 						// math.Int/Uint → machine integer: panics when the value does not fit; needs a dominating IsInt64()/IsUint64() on the same value
 						nNarrow++
@@ -642,6 +693,8 @@ func checkC17(p *Prog, r *Report) {
 	r.Floor("P-bounds-sites", nBounds, 3)
 	r.Floor("P-lib-sites", nLib, 4)
 	r.Count("P-lib-narrowing-sites", nNarrow)
+	r.Count("P-lib-division-sites", nDiv)
+	r.Floor("P-lib-key-conversion-sites", nKeyConv, 1)
 	if r.Tier == "thorough" {
 		bceCrossCheck(p, r, kp, scope, boundSites)
 	}
@@ -831,6 +884,12 @@ func lenFactAtLeast(fa *Facts, at ssa.Instruction, x *Term, n int64) (bool, stri
 			if c+1 >= n && Entails(F, a) {
 				return true, a.String()
 			}
+		case n == 1 && t.Op == "call" && len(t.Args) == 1 && t.Args[0].Eq(x) &&
+			(t.Name == "(sdk/types.Coins).Empty" || t.Name == "(sdk/types.DecCoins).Empty" || t.Name == "(sdk/types.AccAddress).Empty" || t.Name == "(sdk/types.Coins).IsZero"):
+			// SDK emptiness predicates: Empty() ≡ len(x) == 0 (read from the loaded SDK source: single return of len(recv) == 0)
+			if sdkEmptyIsLenZero(fa.p, t.Name) && Entails(F, fNot(a)) {
+				return true, "!" + a.String()
+			}
 		case t.Op == "lt" && isLen(t.Args[0]) && t.Args[1].Op == "const": // len < c ; negated: len >= c
 			fmt.Sscan(t.Args[1].Name, &c)
 			if c >= n && Entails(F, fNot(a)) {
@@ -992,4 +1051,137 @@ func isNarrowingIntCall(name string) string {
 		return "IsUint64"
 	}
 	return ""
+}
+
+// sdkEmptyIsLenZero confirms, on the loaded SDK source, that the named method is `return len(recv) == 0`.
+func sdkEmptyIsLenZero(p *Prog, name string) bool {
+	var fn *ssa.Function
+	// name is "(sdk/types.T).M"
+	if i, j := strings.Index(name, "types."), strings.Index(name, ")."); i > 0 && j > i {
+		if pk := p.All["github.com/cosmos/cosmos-sdk/types"]; pk != nil {
+			if tn, ok := pk.Types.Scope().Lookup(name[i+len("types."):j]).(*types.TypeName); ok {
+				if sel := p.SSA.MethodSets.MethodSet(tn.Type()).Lookup(pk.Types, name[j+2:]); sel != nil {
+					fn = p.SSA.MethodValue(sel)
+				}
+			}
+		}
+	}
+	if fn == nil || len(fn.Blocks) != 1 {
+		return false
+	}
+	rets := returnsOf(fn)
+	if len(rets) != 1 || len(rets[0].Results) != 1 {
+		return false
+	}
+	b, ok := rets[0].Results[0].(*ssa.BinOp)
+	if !ok || b.Op != token.EQL {
+		return false
+	}
+	c, okc := b.Y.(*ssa.Const)
+	l, okl := b.X.(*ssa.Call)
+	if !okc || !okl || c.Value == nil || c.Int64() != 0 {
+		return false
+	}
+	bi, okb := l.Call.Value.(*ssa.Builtin)
+	return okb && bi.Name() == "len" && len(fn.Params) == 1 && l.Call.Args[0] == fn.Params[0]
+}
+
+func isIntegerType(t types.Type) bool {
+	b, ok := t.Underlying().(*types.Basic)
+	return ok && b.Info()&types.IsInteger != 0
+}
+
+func isByteSlice(t types.Type) bool {
+	sl, ok := t.Underlying().(*types.Slice)
+	if !ok {
+		return false
+	}
+	b, ok := sl.Elem().Underlying().(*types.Basic)
+	return ok && b.Kind() == types.Byte
+}
+
+// fixedSizeKeyType: named []byte key types of the crypto packages whose methods panic on a wrong length.
+func fixedSizeKeyType(t types.Type) string {
+	n, ok := t.(*types.Named)
+	if !ok || n.Obj().Pkg() == nil || !isByteSlice(t) {
+		return ""
+	}
+	pp := n.Obj().Pkg().Path()
+	if !(strings.Contains(pp, "/crypto/") || strings.HasPrefix(pp, "crypto/")) {
+		return ""
+	}
+	switch n.Obj().Name() {
+	case "PubKey", "PrivKey", "PublicKey", "PrivateKey":
+		return shortPkg(n.String())
+	}
+	return ""
+}
+
+// isBigDivisionCall: division methods of cosmossdk.io/math Int / Uint / LegacyDec (panic on a zero divisor).
+func isBigDivisionCall(name string) bool {
+	if !strings.HasPrefix(name, "(cosmossdk.io/math.") {
+		return false
+	}
+	i := strings.LastIndex(name, ").")
+	if i < 0 {
+		return false
+	}
+	m := name[i+2:]
+	return strings.HasPrefix(m, "Quo") || strings.HasPrefix(m, "Mod")
+}
+
+// fixedLenProducer: make([]byte, const) — which go/ssa may lower to a slice of a new fixed-size array — possibly through phis.
+func fixedLenProducer(v ssa.Value) bool {
+	switch x := v.(type) {
+	case *ssa.MakeSlice:
+		_, ok := x.Len.(*ssa.Const)
+		return ok
+	case *ssa.Slice:
+		if pt, ok := x.X.Type().Underlying().(*types.Pointer); ok {
+			if _, isArr := pt.Elem().Underlying().(*types.Array); isArr && x.Low == nil && x.High == nil {
+				return true
+			}
+			if _, isArr := pt.Elem().Underlying().(*types.Array); isArr {
+				_, hc := x.High.(*ssa.Const)
+				return x.Low == nil && hc
+			}
+		}
+	case *ssa.Phi:
+		for _, e := range x.Edges {
+			if !fixedLenProducer(e) {
+				return false
+			}
+		}
+		return len(x.Edges) > 0
+	}
+	return false
+}
+
+// bigDivisionGuard: the divisor (last argument) of a math.Int/LegacyDec division is a non-zero constant or is dominated by
+// !IsZero() / IsPositive() on the same value.
+func bigDivisionGuard(o *Origin, fa *Facts, at ssa.Instruction, cc *ssa.CallCommon) (bool, string, *Term) {
+	var dv *Term
+	if n := len(cc.Args); n >= 2 {
+		dv = o.Of(cc.Args[n-1])
+	}
+	if dv == nil {
+		return false, "", nil
+	}
+	if dv.Op == "call" && (strings.HasSuffix(dv.Name, "math.NewInt") || strings.HasSuffix(dv.Name, "math.NewUint") || strings.HasSuffix(dv.Name, "NewDec")) && len(dv.Args) == 1 && dv.Args[0].Op == "const" && dv.Args[0].Name != "0" {
+		return true, "constant divisor " + dv.Args[0].Name, dv
+	}
+	if dv.Op == "const" && dv.Name != "0" {
+		return true, "constant divisor " + dv.Name, dv
+	}
+	if wit, ok := fa.DominatingFact(at, false, func(t *Term) bool {
+		return t.Op == "call" && strings.HasSuffix(t.Name, ").IsZero") && len(t.Args) > 0 && t.Args[0].Eq(dv)
+	}); ok {
+		return true, "!" + wit, dv
+	}
+	if wit, ok := fa.DominatingFact(at, true, func(t *Term) bool {
+		return t.Op == "call" && strings.HasSuffix(t.Name, ").IsPositive") && len(t.Args) > 0 && t.Args[0].Eq(dv)
+	}); ok {
+		return true, wit, dv
+	}
+	return false, "", dv
 }
